@@ -352,7 +352,16 @@ def gen_measured(cirq, rng, cc=True, confusion=True, mid=True, wires=None, max_d
     return c
 
 
-def rand_1q(cirq, rng):
+def rand_1q(cirq, rng, paulis=0.0):
+    if rng.random() < paulis:        # full flips W(a) = PhasedX(a)^1, X, Y and Z^t: what eject_phased_paulis / eject_z hold and push
+        r = rng.random()
+        if r < 0.35:
+            return cirq.PhasedXPowGate(phase_exponent=gates.draw_exp(rng), exponent=1.0)
+        if r < 0.55:
+            return rng.choice([cirq.X, cirq.Y])
+        if r < 0.8:
+            return cirq.Z ** gates.draw_exp(rng)
+        return cirq.PhasedXZGate(x_exponent=1.0, z_exponent=gates.draw_exp(rng), axis_phase_exponent=gates.draw_exp(rng))
     r = rng.random()
     e = gates.draw_exp(rng)
     if r < 0.2:
@@ -372,7 +381,7 @@ def rand_1q(cirq, rng):
     return cirq.rz(gates.draw_angle(rng))
 
 
-def gen_layers(cirq, rng, twoq=None, n=None, depth=None, measured=False, cc=False):
+def gen_layers(cirq, rng, twoq=None, n=None, depth=None, measured=False, cc=False, paulis=0.0):
     """Alternating moments of single-qubit gates (some qubits idle) and two-qubit gates, optional measurements / control."""
     n = n or rng.randint(2, 4)
     qs = cirq.LineQubit.range(n)
@@ -382,7 +391,7 @@ def gen_layers(cirq, rng, twoq=None, n=None, depth=None, measured=False, cc=Fals
     for d in range(depth or rng.randint(3, 7)):
         r = rng.random()
         if r < 0.5:
-            moments.append(cirq.Moment(rand_1q(cirq, rng).on(q) for q in qs if rng.random() < 0.7))
+            moments.append(cirq.Moment(rand_1q(cirq, rng, paulis).on(q) for q in qs if rng.random() < 0.7))
         elif r < 0.9 or not measured:
             order = list(qs)
             rng.shuffle(order)
@@ -416,7 +425,7 @@ def gen_ejectable(cirq, rng, measured=False):
             cirq.FSimGate(gates.draw_angle(rng), gates.draw_angle(rng)), cirq.PhasedISwapPowGate(phase_exponent=gates.draw_exp(rng), exponent=rng.choice([1.0, 0.5, -1.0])),
             cirq.SwapPowGate(exponent=rng.choice([1.0, -1.0, 3.0, 0.5]), global_shift=rng.choice([0.0, 0.5])),
             cirq.ISwapPowGate(exponent=rng.choice([1.0, -1.0, 3.0]), global_shift=rng.choice([0.0, -0.5]))]
-    c = gen_layers(cirq, rng, twoq=twoq, measured=measured, cc=measured and rng.random() < 0.5)
+    c = gen_layers(cirq, rng, twoq=twoq, measured=measured, cc=measured and rng.random() < 0.5, paulis=0.5)
     return c
 
 
@@ -796,7 +805,7 @@ def features(cirq, c):
 def error_class(msg):
     import re
     m = re.match(r'[A-Za-z ]+', msg)
-    return (m.group(0).strip() if m else '')[:60]
+    return ' '.join((m.group(0) if m else '').split()[:4])
 
 
 def evaluate(ctx, checks):
